@@ -242,6 +242,9 @@ func runC03(w *World, r *Report) {
 	ruleFastLayout(w, r)
 	ruleKwType(w, r)
 	rulePairBool(w, r)
+	// the fast path reads its operands' values without executing them: only two-leaf operators may be marked fast
+	// (the permitted extra work of C03), which is the flag-writer clause of R-KIND
+	ruleKind(w, r)
 }
 
 // runC03Sites: where fetches and operator calls can occur in Eval (also run under C11).
